@@ -865,7 +865,60 @@ def sub_ver_dig(case):
     return r_
 
 
-SUBS = {'sign': sub_sign, 'sign_ht': sub_sign_ht, 'sign_k': sub_sign_k, 'sign_rng': sub_sign_rng,
+# ------------------------------------------------------------------------- verify-call histories (state reuse)
+def sub_reuse(case):
+    """Histories of verify calls on ONE Signature object. The verdict of every call must be the reference
+    verdict for the digest and key given to THAT call: nothing remembered from an earlier call (or from
+    signing) may leak into a later one.  case = {d, z, origin, hist: [[digest idx, key idx, call form], ...]}"""
+    from bitcoinlib.keys import Signature, Key, sign, verify
+    d = int(case['d'], 16)
+    z0 = int(case['z'], 16)
+    d2 = (d * 7 + 11) % (N - 1) + 1
+    zs = [z0, z0 ^ 1, int.from_bytes(hashlib.sha256(b'reuse' + case['z'].encode()).digest(), 'big')]
+    P = [secp.pub(d), secp.pub(d2)]
+    libP = [Key(secp.ser(P[0]).hex()), Key(secp.ser(P[1]).hex())]
+    k = secp.rfc6979_k(d, _b32(z0))
+    r, s_ = secp.ecdsa_sign_raw(d, z0, k)
+    if s_ > N // 2:
+        s_ = N - s_
+    origin = case['origin']
+    devs = []
+    try:
+        if origin == 'sign':
+            sg = sign(_b32(z0), Key(_h(d)))
+            r, s_ = sg.r, sg.s
+        elif origin == 'parse_der':
+            sg = Signature.parse_bytes(secp.der_encode(r, s_) + b'\x01')
+        elif origin == 'parse_raw':
+            sg = Signature.parse_bytes(_b32(r) + _b32(s_))
+        else:
+            sg = Signature(r, s_)
+    except Exception as e:
+        return {'devs': [{'sig': 'reuse|construction_raises|%s' % origin, 'detail': {'exc': repr(e)[:200]}}]}
+    outs = {}
+    for step, (zi, ki, form) in enumerate(case['hist']):
+        exp = secp.ecdsa_verify(zs[zi], r, s_, P[ki])
+        try:
+            if form == 'method':
+                got = bool(sg.verify(_b32(zs[zi]), libP[ki]))
+            elif form == 'method_hex':
+                got = bool(sg.verify(_h(zs[zi]), libP[ki]))
+            else:
+                got = bool(verify(_b32(zs[zi]), sg, libP[ki]))
+        except Exception:
+            got = False
+        lab = '%s:%s' % ('valid' if exp else 'invalid', 'accepted' if got else 'rejected')
+        outs[lab] = outs.get(lab, 0) + 1
+        if got != exp:
+            devs.append({'sig': 'reuse|%s|origin=%s|step=%s' % ('accepts_invalid' if got else 'rejects_valid', origin,
+                                                                 'first' if step == 0 else 'later'),
+                         'detail': {'d': case['d'], 'z': case['z'], 'hist': case['hist'], 'step': step,
+                                    'digest_index': zi, 'key_index': ki, 'form': form}})
+            break
+    return {'devs': devs, 'n': len(case['hist']), 'out': outs}
+
+
+SUBS = {'reuse': sub_reuse, 'sign': sub_sign, 'sign_ht': sub_sign_ht, 'sign_k': sub_sign_k, 'sign_rng': sub_sign_rng,
         'sign_starget': sub_sign_starget, 'nonce_pair': sub_nonce_pair, 'ver_rs': sub_ver_rs, 'ver_der': sub_ver_der,
         'ver_key': sub_ver_key, 'ver_dig': sub_ver_dig}
 
@@ -985,6 +1038,17 @@ def run(ctx):
     if not q:
         bases += [{'d': _h(d), 'z': _h(z), 'low': 1} for d, z in ((2, N + 1), (N - 2, T255), (HALF, HALF), (3, T256 - N))]
         bases += [{'d': _h(9), 'k': _h(KHALF), 's': _h(1 << (8 * i))} for i in range(1, 31, 3)]
+    if want('reuse'):
+        import itertools
+        evs = [[zi, ki, f] for zi in (0, 1, 2) for ki in (0, 1) for f in ('method', 'function')]
+        L = 2 if q else 3
+        hists = [list(h) for l in range(1, L + 1) for h in itertools.product(evs, repeat=l)]
+        rcases = []
+        for origin in ('sign', 'parse_der', 'parse_raw', 'ints'):
+            for d, z in ((keys[-1], digests[-1]), (1, 1)) + (() if q else ((N - 1, T256 - 1),)):
+                for h in hists:
+                    rcases.append({'d': _h(d), 'z': _h(z), 'origin': origin, 'hist': h})
+        ctx.pmap('reuse', rcases)
     if want('ver_rs'):
         ctx.pmap('ver_rs', [{'base': b, 'wide': not q} for b in bases], chunk=1)
     if want('ver_der'):
